@@ -20,6 +20,12 @@ Proof. vm_compute. reflexivity. Qed.
 Lemma gen_fallback : gen_post_filter_fallback = true.
 Proof. vm_compute. reflexivity. Qed.
 
+(* the cached index and the exact scan call exactly the zero-norm vectors degenerate (score 0): a
+   threshold on either side would make the index report other scores than the exact scan for
+   non-zero vectors of tiny norm *)
+Lemma gen_zero_guards : gen_index_zero_guard_exact = true /\ gen_scan_zero_guard_exact = true.
+Proof. vm_compute. split; reflexivity. Qed.
+
 Lemma gen_keep_spec : forall b, gen_keep b = negb (f_iszero b).
 Proof. intros b. unfold gen_keep. repeat match goal with |- context [if ?c then _ else _] => destruct c end; reflexivity. Qed.
 
